@@ -60,6 +60,14 @@ Theorem C36_recover_refuted_lost_write :
 Proof. exact recover_refuted_lost_write. Qed.
 Print Assumptions C36_recover_refuted_lost_write.
 
+(** F5: a segment that was flushed long ago but is retained for a raft group is
+    replayed into a memtable by the reopening DB; its old write of key 0 shadows
+    the newer value that is already in a table. *)
+Theorem C36_recover_refuted_stale_replay :
+  expect_get w5 0 None = Some 2%N /\ recovered_get (run st0 w5) 0 = Some 1%N.
+Proof. exact recover_refuted_stale_replay. Qed.
+Print Assumptions C36_recover_refuted_stale_replay.
+
 (** What does hold, for every history (memtable ids grow): the flush remover
     and the recovery cleanup never remove a segment holding writes of a memtable
     that is not installed as a table; and when no raft group shares the WAL
